@@ -25,12 +25,12 @@ void console_hwinit(console_t *c) { (void)c; }
 
 /* ------------------------------------------------------------ capture */
 typedef struct { int8_t cmd; int8_t argc; char argv[4][82]; int8_t bad; } inv_t;
-static inv_t invs[16]; static int ninv;
+static inv_t invs[260]; static int ninv;
 static console_t *CON;
 
 static pt_state_t capture(console_t *c, int which)
 {
-	if (ninv < 16) {
+	if (ninv < 260) {
 		inv_t *v = &invs[ninv];
 		memset(v, 0, sizeof(*v));
 		v->cmd = (int8_t)which; v->argc = (int8_t)c->argc;
@@ -115,7 +115,7 @@ static const char *check_line(const char *line, const inv_t *got, int ngot, cons
 	vx_hasher h; vx_h_init(&h); vx_h_bytes(&h, line, strlen(line)); vx_h_u64(&h, (uint64_t)ngot);
 	if (ngot) { vx_h_u64(&h, (uint64_t)got[0].cmd); vx_h_u64(&h, (uint64_t)got[0].argc); }
 	vx_set_add(&distinct_obs, vx_h_done(&h));
-	for (int i = 0; i < ngot && i < 16; i++) if (got[i].bad) {
+	for (int i = 0; i < ngot && i < 260; i++) if (got[i].bad) {
 		*clause = "argv-unsafe";
 		snprintf(failbuf, sizeof(failbuf), "line \"%s\": command received %s", line, got[i].bad == 1 ? "argc outside 1..4" : got[i].bad == 2 ? "an argv pointer outside the line buffer" : "an argv string that is not NUL-terminated inside the line buffer");
 		return failbuf;
@@ -253,9 +253,9 @@ static int reference_lines(const char *s, int n, char lines[][80])
  * 2: console_putchar in bursts (ring permitting) + passes; 3: console_eval in a fibre */
 static const char *deliver(const char *s, int n, int mode, const char **clause)
 {
-	char lines[24][80]; int nl = reference_lines(s, n, lines);
+	static char lines[260][80]; int nl = reference_lines(s, n, lines);
 	console_fresh();
-	inv_t all[24]; int nall = 0, perline[24]; memset(perline, 0, sizeof(perline));
+	static inv_t all[260]; int nall = 0;
 	/* invocations are attributed to lines in order of completion: collect them all, then compare line by line */
 	ninv = 0;
 	uint32_t t = 100;
@@ -267,19 +267,21 @@ static const char *deliver(const char *s, int n, int mode, const char **clause)
 				int burst = 0;
 				while (i < n && burst < 14) { console_putchar(CON, s[i++]); burst++; }
 				for (int k = 0; k < 64; k++) fibre_scheduler_next(t++);
+				if (ninv >= 259) break;
 			}
 		} else {
 			fibre_init(&evalf, eval_body); PT_INIT(&evalpt); evalstr = s; eval_done = 0;
 			fibre_run(&evalf);
 			int k;
-			for (k = 0; k < 400 && (!eval_done || !ringbuf_empty(&CON->ring) || kernel.runq.head); k++) fibre_scheduler_next(t++);
+			int maxpass = 400 + 8 * n;
+			for (k = 0; k < maxpass && (!eval_done || !ringbuf_empty(&CON->ring) || kernel.runq.head); k++) fibre_scheduler_next(t++);
 			for (int j = 0; j < 8; j++) fibre_scheduler_next(t++);
-			if (!eval_done) { VX_END; *clause = "eval-never-completes"; return "console_eval has not exited after 400 scheduling passes"; }
+			if (!eval_done) { VX_END; *clause = "eval-never-completes"; return "console_eval has not exited after 400 + 8 x length scheduling passes"; }
 		}
 		VX_END;
 	} else { VX_END; *clause = "fault"; snprintf(failbuf, sizeof(failbuf), "%s", vx_fault_msg); return failbuf; }
 	if (!scratch_tail_clean(CON) || !canaries_ok()) { *clause = "write-outside-line-buffer"; return "the console wrote outside its 80-byte line buffer"; }
-	nall = ninv < 16 ? ninv : 16; memcpy(all, invs, sizeof(inv_t) * (size_t)nall);
+	nall = ninv < 260 ? ninv : 260; memcpy(all, invs, sizeof(inv_t) * (size_t)nall);
 	/* memory safety of what the commands were handed holds for every line, specified or not */
 	for (int i = 0; i < nall; i++) if (all[i].bad) {
 		*clause = "argv-unsafe";
@@ -323,7 +325,7 @@ static int report_stream(const char *s, int n, int mode, const char *clause, con
 static int try_stream(const char *s0, int n, const char *family, int modes_mask)
 {
 	int bad = 0;
-	char s[420]; memcpy(s, s0, (size_t)n); s[n] = 0;	/* console_eval takes a C string */
+	char s[1400]; memcpy(s, s0, (size_t)n); s[n] = 0;	/* console_eval takes a C string */
 	n_streams++;
 	for (int mode = 0; mode < 4; mode++) {
 		if (!(modes_mask & (1 << mode))) continue;
@@ -437,8 +439,9 @@ int main(int argc, char **argv)
 		const char *part = vx_replay_field(rp, "part");
 		if (part && part[0] == 'B') {
 			int mode = atoi(vx_replay_field(rp, "mode")); char fam[64]; snprintf(fam, sizeof(fam), "%s", vx_replay_field(rp, "family"));
-			const char *hx = vx_replay_field(rp, "stream"); char s[256]; int n = 0;
-			for (; hx && hx[2 * n] && hx[2 * n + 1] && n < 250; n++) { unsigned v; sscanf(hx + 2 * n, "%2x", &v); s[n] = (char)v; }
+			const char *hx = strstr(rp, "stream="); static char s[1400]; int n = 0;
+			if (hx) hx += 7;
+			for (; hx && hx[2 * n] > ' ' && hx[2 * n + 1] > ' ' && n < 1390; n++) { unsigned v; sscanf(hx + 2 * n, "%2x", &v); s[n] = (char)v; }
 			s[n] = 0;
 			memcpy(cmd_table, work_table, sizeof(work_table));
 			try_stream(s, n, fam, 1 << mode);
@@ -505,6 +508,24 @@ int main(int argc, char **argv)
 			s[n++] = 'b'; s[n++] = ' '; s[n++] = 'a'; s[n++] = '\n';
 			s[n] = 0;
 			bad += try_stream(s, n, "long", 15);
+		}
+	}
+	/* scripts: many short lines, total length around the sizes a narrow cursor would wrap at */
+	if (vx_mine(17)) {
+		memcpy(cmd_table, work_table, sizeof(work_table));
+		static char s[1400];
+		static const int totals[] = { 120, 254, 255, 256, 257, 258, 300, 511, 512, 513, 1000 };
+		int bad = 0;
+		for (unsigned ti = 0; ti < sizeof(totals) / sizeof(totals[0]) && bad < 6; ti++) {
+			int n = 0, line = 0;
+			while (n < totals[ti]) {
+				const char *l = (line % 3 == 0) ? "ab a\n" : (line % 3 == 1) ? "b\n" : "a bb ab\n";
+				int ll = (int)strlen(l);
+				if (n + ll > totals[ti]) { while (n < totals[ti] - 1) s[n++] = ' '; s[n++] = '\n'; break; }
+				memcpy(s + n, l, (size_t)ll); n += ll; line++;
+			}
+			s[n] = 0;
+			bad += try_stream(s, n, "script", 13);	/* console_process, putchar bursts, console_eval */
 		}
 	}
 	vx_count("evaluations", n_streams + n_reg_orders); vx_count("distinct", distinct_obs.n);
